@@ -385,6 +385,7 @@ SKELETON_TARGETS = [
     ("wormhole._dilation.connection", "DilatedConnectionProtocol", None),
     ("wormhole._dilation.subchannel", "SubChannel", None),
     ("wormhole._dilation.outbound", "Outbound", None),
+    ("wormhole._dilation.outbound", "PullToPush", None),
     ("wormhole._dilation.inbound", "Inbound", None),
     ("wormhole.cli.cmd_receive", "Receiver", None),   # C04
     ("wormhole.cli.cmd_send", "Sender", None),        # C04
@@ -852,6 +853,32 @@ def extract_flags():
         _passes_unchanged(_fn(_c01code.Code, "do_finish_input"), "code", ["_B.got_code", "_K.got_code"]),
         _passes_unchanged(_fn(_c01code.Code, "do_finish_allocate"), "code", ["_B.got_code", "_K.got_code"]),
     ])
+    # C15: the exception policy of PullToPush._pull: the try around the pull producer's resumeProducing() has exactly
+    # one handler, `except Exception:`, and that handler calls self._unregister()
+    from wormhole._dilation import outbound as _c15_dout
+    fn = ast.parse(textwrap.dedent(inspect.getsource(_c15_dout.PullToPush._pull))).body[0]
+    outer = [n for n in ast.walk(fn) if isinstance(n, ast.Try)
+             and any(isinstance(x, ast.Call) and _call_name(x) == "_producer.resumeProducing" for b in n.body for x in ast.walk(b))]
+    ok = False
+    if len(outer) == 1 and len(outer[0].handlers) == 1:
+        hnd = outer[0].handlers[0]
+        ok = (isinstance(hnd.type, ast.Name) and hnd.type.id == "Exception"
+              and any(isinstance(x, ast.Call) and _call_name(x) == "self._unregister" for b in hnd.body for x in ast.walk(b)))
+    flags["pull_to_push_unregisters_on_any_exception"] = ok
+    # C15: the model identifies producers with ids and ends Outbound.resumeProducing's loop exactly when
+    # _get_next_unpaused_producer() returned None: the real loop's `break` must be guarded by `<name> is None` on the
+    # name that call was assigned to (a truth test would also stop on a registered producer whose truth value is False)
+    from wormhole._dilation import outbound as _c15_out2
+    t = ast.parse(textwrap.dedent(inspect.getsource(_c15_out2.Outbound.resumeProducing)))
+    assigned = [n.targets[0].id for n in ast.walk(t) if isinstance(n, ast.Assign) and isinstance(n.value, ast.Call)
+                and _call_name(n.value) == "self._get_next_unpaused_producer" and isinstance(n.targets[0], ast.Name)]
+    breaks = [n for n in ast.walk(t) if isinstance(n, ast.If) and any(isinstance(b, ast.Break) for b in n.body)]
+    def _is_none_test(test, name):
+        return (isinstance(test, ast.Compare) and isinstance(test.left, ast.Name) and test.left.id == name
+                and len(test.ops) == 1 and isinstance(test.ops[0], ast.Is)
+                and isinstance(test.comparators[0], ast.Constant) and test.comparators[0].value is None)
+    flags["outbound_resume_loop_ends_only_on_none"] = (len(assigned) == 1 and len(breaks) == 1
+                                                       and _is_none_test(breaks[0].test, assigned[0]))
     return flags
 
 
